@@ -99,7 +99,7 @@ func hostileManifest(r *simkit.RNG, strs []string) string {
 		}
 		return simkit.Pick(r, pool)
 	}
-	locals := []string{"pkgdir", "pkgdir", "pkgdir0", "pkg", "pkgdir-old", "PKGDIR", "Pkg", "..cache", "...", "..", ".", "a/b", "a\\b", "", "/abs", "terraform-sources.json", "../x", "x/..", "pkgdir/", "/", "..\\..", "pkgdir\x00", "ü"}
+	locals := []string{"pkgdir", "pkgdir", "pkgdir0", "pkg", "pkgdir-old", "PKGDIR", "Pkg", "..cache", "...", "..", ".", "a/b", "a\\b", "", "/abs", "terraform-sources.json", "../x", "x/..", "pkgdir/", "/", "..\\..", "pkgdir\x00", "ü", " ..", "..\n", " .", " ", "\t..", ".. ", " pkgdir"}
 	sources := []string{"git::https://example.com/x.git", "https://example.com/x.tgz", "git::https://example.com/x.git//sub", "garbage", "", "./local", "https://user:pw@example.com/x.tgz", "git::https://example.com/x.git?ref=a"}
 	regs := []string{"example.com/a/b/c", "a/b/c", "example.com/a/b/c//sub", "garbage", "", "a/b"}
 	vers := []string{"1.0.0", "1.0.0-beta", "not-a-version", "", "1", "v1.0.0", "1.0.0+b", "0.0.0", "18446744073709551616.0.0", "1.99999999999999999999.0"}
